@@ -1,6 +1,6 @@
 //! Filter execution.
 
-use crate::box_iter::{self, box_once, flat_map_then, flat_map_then_with, flat_map_with, map_with};
+use crate::box_iter::{self, box_once, flat_map_then, flat_map_then_with, map_with};
 use crate::compile::{Bind, CallType, Fold, Pattern, Term as Ast, TermId as Id};
 use crate::data::{DataT, HasLut};
 use crate::fold::fold;
@@ -299,12 +299,15 @@ where
     flat_map_then_with(l.run(cv.clone()), cv, move |y, cv| r(cv, y))
 }
 
-type Pairs<'a, T> = box_iter::BoxIter<'a, (T, T)>;
+type Pairs<'a, V> = ValXs<'a, (V, V), V>;
 
 /// Run `self` and `r` and return the cartesian product of their outputs.
-fn cartesian<'a, D: DataT>(l: &'a Id, r: &'a Id, cv: Cv<'a, D>) -> Pairs<'a, ValX<'a, D::V<'a>>> {
-    flat_map_with(l.run(cv.clone()), cv, move |l, cv| {
-        map_with(r.run(cv), l, |r, l| (l, r))
+///
+/// This implements `l as $x | r as $y | ($x, $y)`; in particular,
+/// an error of `l` is yielded regardless of the outputs of `r`.
+fn cartesian<'a, D: DataT>(l: &'a Id, r: &'a Id, cv: Cv<'a, D>) -> Pairs<'a, D::V<'a>> {
+    flat_map_then_with(l.run(cv.clone()), cv, move |l, cv| {
+        map_with(r.run(cv), l, |r, l| Ok((l, r?)))
     })
 }
 
@@ -473,7 +476,7 @@ impl Id {
             Ast::Arr(f) => box_once(f.run(cv).collect()),
             Ast::ObjEmpty => box_once(D::V::from_map([]).map_err(Exn::from)),
             Ast::ObjSingle(k, v) => {
-                Box::new(cartesian(k, v, cv).map(|(k, v)| Ok(D::V::from_map([(k?, v?)])?)))
+                Box::new(cartesian(k, v, cv).map(|kv| Ok(D::V::from_map([kv?])?)))
             }
             Ast::TryCatch(f, c) => try_catch_run(f.run((cv.0.clone(), cv.1)), move |e| {
                 c.run((cv.0.clone(), e.into_val()))
@@ -537,9 +540,12 @@ impl Id {
                     Box::new(r.run(cv).map(|r| Ok(D::V::from(r?.as_bool()))))
                 }
             }),
-            Ast::Math(l, op, r) => Box::new(cartesian(l, r, cv).map(|(x, y)| Ok(op.run(x?, y?)?))),
+            Ast::Math(l, op, r) => Box::new(cartesian(l, r, cv).map(|xy| {
+                let (x, y) = xy?;
+                Ok(op.run(x, y)?)
+            })),
             Ast::Cmp(l, op, r) => {
-                Box::new(cartesian(l, r, cv).map(|(x, y)| Ok(D::V::from(op.run(&x?, &y?)))))
+                Box::new(cartesian(l, r, cv).map(|xy| xy.map(|(x, y)| D::V::from(op.run(&x, &y)))))
             }
 
             Ast::Fold(xs, pat, init, update, fold_type) => {
